@@ -6,6 +6,10 @@ use std::time::Instant;
 
 pub mod c01;
 pub mod c03;
+pub mod c04;
+pub mod c05;
+pub mod c11;
+pub mod pad;
 pub mod mux;
 
 pub fn dispatch(prop: &str, ctx: Ctx, replay: Option<&str>) -> i32 {
@@ -18,6 +22,21 @@ pub fn dispatch(prop: &str, ctx: Ctx, replay: Option<&str>) -> i32 {
             crate::run::start_watchdog(std::time::Duration::from_secs(180), None);
             let rep = c01::run(ctx);
             finish(rep, c01::meta(), ctx.tier, ctx.seed, started)
+        }
+        "C04" => {
+            crate::run::start_watchdog(std::time::Duration::from_secs(180), None);
+            let rep = c04::run(ctx);
+            finish(rep, c04::meta(), ctx.tier, ctx.seed, started)
+        }
+        "C05" => {
+            crate::run::start_watchdog(std::time::Duration::from_secs(180), None);
+            let rep = c05::run(ctx);
+            finish(rep, c05::meta(), ctx.tier, ctx.seed, started)
+        }
+        "C11" => {
+            crate::run::start_watchdog(std::time::Duration::from_secs(180), None);
+            let rep = c11::run(ctx);
+            finish(rep, c11::meta(), ctx.tier, ctx.seed, started)
         }
         "C03" => {
             let mut rep = Report::new("C03");
@@ -77,7 +96,11 @@ pub fn replay_file(prop: &str, path: &str) -> i32 {
 
 /// entry point for helper sub-processes (`mon child <what> ...`)
 pub fn child_main(args: &[String]) -> i32 {
-    let _ = args;
-    eprintln!("unknown child command");
-    2
+    match args.first().map(|s| s.as_str()) {
+        Some("pad-huge") => c04::child_huge(args.get(1).and_then(|s| s.parse().ok()).unwrap_or(1)),
+        _ => {
+            eprintln!("unknown child command");
+            2
+        }
+    }
 }
